@@ -25,4 +25,37 @@ def isFlatCodeBlock : Block → Bool
 /-- a document of rules, plain paragraphs / headings and code blocks, all at top level -/
 def FlatCodeDoc (d : Doc) : Bool := d.all isFlatCodeBlock
 
+/-! ### rung B: code spans among words and escapes -/
+
+/-- words, a backslash escape, or a code span without `<` -/
+def isSpanItem : Inline → Bool
+  | .text _ => true
+  | .esc _ => true
+  | .code b => noLt b
+  | _ => false
+
+/-- no escaped backslash directly before a code span.  (There `BACKTICK_RE`'s first alternative `((?:\\{2})+)(?=`+)`,
+    not the escape pattern, consumes the backslashes; the rendering is the same — tested — but that path of the inline
+    engine is not covered by the proof.) -/
+def noBsBeforeCode : List Inline → Bool
+  | .esc c :: .code b :: r => c != '\\' && noBsBeforeCode (.code b :: r)
+  | _ :: r => noBsBeforeCode r
+  | [] => true
+
+/-- inline content made of words, escapes and code spans -/
+def spanRun (c : List Inline) : Bool := c.all isSpanItem && noBsBeforeCode c
+
+/-- a rule, an indented code block without `<`, or a paragraph / ATX heading / Setext heading whose content is words,
+    escapes and code spans -/
+def isSpanBlock : Block → Bool
+  | .rule => true
+  | .code ls => ls.all noLt
+  | .para c => spanRun c
+  | .atx _ c => spanRun c
+  | .setext _ c => spanRun c
+  | _ => false
+
+/-- a document made of such blocks (all at top level) -/
+def SpanDoc (d : Doc) : Bool := d.all isSpanBlock
+
 end MdVerif.DocSpec
